@@ -7,6 +7,7 @@ import (
 	"math"
 	"math/big"
 	"sort"
+	"sync"
 	"strings"
 
 	msm4msg "github.com/goblimey/go-ntrip/rtcm/type_msm4/message"
@@ -523,6 +524,22 @@ func monC08(c *child.Ctx, replay json.RawMessage) {
 			return 1
 		case 5:
 			return max
+		case 6, 7:
+			// plus or minus a power of two, and its neighbours: among them the other
+			// format's "invalid" markers (-2^14, -2^19, -2^21), which are ordinary
+			// values in this field
+			v := 1 << uint(r.Intn(int(bits)-1))
+			if r.Chance(1, 2) {
+				v = -v
+			}
+			v += r.Intn(3) - 1
+			if v < min {
+				v = min
+			}
+			if v > max {
+				v = max
+			}
+			return v
 		}
 		return r.Range(min, max)
 	}
@@ -597,6 +614,7 @@ func monC08(c *child.Ctx, replay json.RawMessage) {
 	}
 	// whole messages: 2-5 satellites x 1-3 signals, some satellites with the invalid
 	// rough range; all cells checked after decoding and again after display
+	var sideBySide []multiCase
 	nm := c.Share(c.Pick(40000, 800000))
 	for i := 0; i < nm; i++ {
 		t := timed[i%len(timed)]
@@ -639,6 +657,28 @@ func monC08(c *child.Ctx, replay json.RawMessage) {
 		}
 		execC08Multi(c, mc)
 		c.EvalN(1)
+		if i%7 == 0 && len(sideBySide) < 4000 {
+			sideBySide = append(sideBySide, mc)
+		}
+	}
+	// the same messages again, four goroutines at a time each with its own messages:
+	// what a signal's range is does not depend on what is being decoded next door
+	for lo := 0; lo+4 <= len(sideBySide); lo += 4 {
+		start := make(chan struct{})
+		var wg sync.WaitGroup
+		for g := 0; g < 4; g++ {
+			wg.Add(1)
+			go func(mc multiCase) {
+				defer wg.Done()
+				<-start
+				for rep := 0; rep < 15; rep++ {
+					execC08Multi(c, mc)
+				}
+			}(sideBySide[lo+g])
+		}
+		close(start)
+		wg.Wait()
+		c.Count("messages_evaluated_side_by_side", 4)
 	}
 	// complete sweep of the whole-millisecond field with boundary fractions (direct construction)
 	if c.Batch == 0 {
